@@ -311,7 +311,7 @@ impl Property for C17 {
         }
     }
     fn fuzz_runs(&self, _tier: Tier) -> u64 {
-        40_000
+        6_000 // recursion probes make a case ~50 ms in the instrumented build
     }
     fn random_cases(&self, tier: Tier) -> u64 {
         tier.pick(80_000, 400_000)
